@@ -452,7 +452,7 @@ func instrDominates(a, b ssa.Instruction) bool {
 // c13RowBottom: the bottom edge of a row is computed from its final height.
 func c13RowBottom(c *core.Check) {
 	p := c.Prog
-	r := c.Rule("R6", "cells of a row share the row's height: where tableLayout computes the bottom edge of a row as PositionY + Height, the height read is the final one — no assignment of that row's Height can follow the read within the same iteration (cells are padded down to this edge)", 2)
+	r := c.Rule("R6", "cells of a row share the row's height: where tableLayout computes the bottom edge of a row as PositionY + Height, the height read is the final one — no assignment of that row's Height can follow the read within the same iteration (cells are padded down to this edge)", 3)
 	n := 0
 	for _, fn := range p.FuncsOfPkg("html/layout") {
 		root := fn
